@@ -213,6 +213,7 @@ func (re *Regexp) getReplacerData(replacement string) (*syntax.ReplacerData, err
 		}
 	}
 
+	verifPoint(verifPtReplacerMiss)
 	data, err := syntax.NewReplacerData(replacement, re.caps, re.capsize, re.capnames, syntax.RegexOptions(re.options))
 	if err != nil {
 		return nil, err
@@ -316,6 +317,7 @@ func (re *Regexp) FindAllStringIndex(s string, n int) ([][]int, error) {
 	byteOffsets := newStringByteMapper(s)
 	if re.quickCode != nil {
 		runner.code = re.quickCode
+		verifPoint(verifPtQuickCode)
 	}
 	return re.findAllRunesIndex(runner, input, runeStart, n, func(runeIndex, runeLength int) (int, int) {
 		if byteOffsets == nil {
@@ -341,6 +343,7 @@ func (re *Regexp) FindAllRunesIndex(r []rune, n int) ([][]int, error) {
 	}
 	if re.quickCode != nil {
 		runner.code = re.quickCode
+		verifPoint(verifPtQuickCode)
 	}
 	return re.findAllRunesIndex(runner, r, startAt, n, func(runeIndex, runeLength int) (int, int) {
 		return runeIndex, runeIndex + runeLength
@@ -472,6 +475,7 @@ func (re *Regexp) matchStringAt(s string, startAt int) (bool, error) {
 	}()
 	if re.quickCode != nil {
 		runner.code = re.quickCode
+		verifPoint(verifPtQuickCode)
 	}
 
 	m, err := runner.scan(input, nil, runeStart, -1, true, re.MatchTimeout)
